@@ -115,13 +115,24 @@ notes = 13
 
 def make_config(country, assets, exchanges, holders, from_day=None, to_day=None, allow_neg=False, extra_ini=""):
     from rp2.configuration import Configuration, MIN_DATE, MAX_DATE
-    d = _state.setdefault("tmp", tempfile.mkdtemp(prefix="rp2cfg_"))
+    if _state.get("tmp_pid") != os.getpid():
+        from harness import core
+        _state["tmp"] = os.path.join(core.tmp_root(), f"cfg{os.getpid()}")
+        os.makedirs(_state["tmp"], exist_ok=True)
+        _state["tmp_pid"] = os.getpid()
+        _state["ini"] = {}
+    d = _state["tmp"]
     key = (tuple(assets), tuple(exchanges), tuple(holders), extra_ini)
     paths = _state.setdefault("ini", {})
-    if key not in paths:
-        p = os.path.join(d, f"cfg{len(paths)}.ini")
-        with open(p, "w", encoding="utf-8") as f:
+    if key not in paths or not os.path.exists(paths[key]):
+        # the name depends on the content and on the process: forked workers inherit _state (directory and
+        # path table) from the parent, so a counter-based name would be written by several processes at once
+        import hashlib
+        os.makedirs(d, exist_ok=True)
+        p = os.path.join(d, f"cfg_{hashlib.sha1(repr(key).encode()).hexdigest()[:16]}_{os.getpid()}.ini")
+        with open(p + ".tmp", "w", encoding="utf-8") as f:
             f.write(INI_TEMPLATE.format(assets=", ".join(assets), exchanges=", ".join(exchanges), holders=", ".join(holders)) + extra_ini)
+        os.replace(p + ".tmp", p)
         paths[key] = p
     return Configuration(paths[key], country,
                          from_date=MIN_DATE if from_day is None else date_of_day(from_day),
